@@ -111,6 +111,18 @@ func (a *Act) intrinsic(name string, fv FuncV, args []Value) (Value, bool) {
 		return nilPtr(), true
 	case "(*time.Timer).Stop":
 		return True, true
+	case "strings.ToUpper":
+		s0 := args[0].(StrV)
+		if s0.conc {
+			return ConcStr(strings.ToUpper(s0.s)), true
+		}
+		return StrV{id: mapStrLeaves(s0.id, strings.ToUpper)}, true
+	case "strings.ToLower":
+		s0 := args[0].(StrV)
+		if s0.conc {
+			return ConcStr(strings.ToLower(s0.s)), true
+		}
+		return StrV{id: mapStrLeaves(s0.id, strings.ToLower)}, true
 	case "strings.HasSuffix":
 		return in.fresh("hasSuffix", BoolSort), true
 	case "strings.HasPrefix":
@@ -278,6 +290,11 @@ func (a *Act) intrinsic(name string, fv FuncV, args []Value) (Value, bool) {
 		a.atomicOp = true
 		r := a.load(args[0].(PtrV))
 		a.atomicOp = false
+		if in.flags["atomicHavoc"] && !in.isHarnessFn(a.fn) {
+			// other goroutines may have updated the cell atomically since this call last touched it:
+			// an atomic load in the code under test observes an arbitrary value
+			return in.named("atomicLoad@", r.(*Term).sort), true
+		}
 		return r, true
 	case "sync/atomic.StoreInt32", "sync/atomic.StoreUint32":
 		a.atomicOp = true
